@@ -188,30 +188,33 @@ Inductive pres := POk (p : pref) | PErr | PUnjudged.
 
 Definition count (c : N) (s : str) : nat := length (filter (fun d => d =? c) s).
 
+(* after the scheme: query, authority, path *)
+Definition parse_rest (sch : option str) (rest0 : str) : pres :=
+  let '(rest, q) := cut c_qm rest0 in
+  let slash := has_prefix [c_sl] rest in
+  match sch, slash with
+  | Some _, false => PUnjudged                       (* opaque or empty rest *)
+  | _, _ =>
+    if negb slash && contains c_col (fst (cut c_sl rest)) then PErr   (* first path segment with a colon *)
+    else if has_prefix [c_sl; c_sl; c_sl] rest then PUnjudged
+    else if has_prefix [c_sl; c_sl] rest then
+      let auth_path := skipn 2 rest in
+      let '(auth, p) := cut c_sl auth_path in
+      let path := match p with Some p' => c_sl :: p' | None => [] end in
+      if host_ok auth && forallb path_char path && forallb query_char (match q with Some x => x | None => [] end)
+      then POk (mkP sch (Some auth) path q) else PUnjudged
+    else
+      if forallb path_char rest && forallb query_char (match q with Some x => x | None => [] end)
+      then POk (mkP sch None rest q) else PUnjudged
+  end.
+
 Definition parse_ref (ref : str) : pres :=
   if negb (forallb (fun c => (33 <=? c) && (c <=? 126)) ref) || contains c_hash ref then PUnjudged
   else
     match get_scheme ref with
     | SErr => PErr
-    | sr =>
-      let '(sch, rest) := match sr with SScheme s r => (Some (map to_lower s), r) | _ => (None, ref) end in
-      let '(rest, q) := cut c_qm rest in
-      let slash := has_prefix [c_sl] rest in
-      match sch, slash with
-      | Some _, false => PUnjudged                       (* opaque or empty rest *)
-      | _, _ =>
-        if negb slash && contains c_col (fst (cut c_sl rest)) then PErr   (* first path segment with a colon *)
-        else if has_prefix [c_sl; c_sl; c_sl] rest then PUnjudged
-        else if has_prefix [c_sl; c_sl] rest then
-          let auth_path := skipn 2 rest in
-          let '(auth, p) := cut c_sl auth_path in
-          let path := match p with Some p' => c_sl :: p' | None => [] end in
-          if host_ok auth && forallb path_char path && forallb query_char (match q with Some x => x | None => [] end)
-          then POk (mkP sch (Some auth) path q) else PUnjudged
-        else
-          if forallb path_char rest && forallb query_char (match q with Some x => x | None => [] end)
-          then POk (mkP sch None rest q) else PUnjudged
-      end
+    | SScheme s r => parse_rest (Some (map to_lower s)) r
+    | SNone => parse_rest None ref
     end.
 
 (* url.resolvePath: remove_dot_segments as net/url writes it *)
